@@ -28,6 +28,9 @@ Lorentz4 == {"t", "t2", "tau", "tau2", "beta", "gamma", "rapidity", "Et", "Et2",
 CUnary == { Case(op, v, None, None) : op \in Planar2, v \in VecsFrom(2) }
           \cup { Case(op, v, None, None) : op \in Spatial3, v \in VecsFrom(3) }
           \cup { Case(op, v, None, None) : op \in Lorentz4, v \in Vec4 }
+          \* numpy.sqrt / cbrt / power of a vector: functions of its norm
+          \cup { Case(op, v, None, None) : op \in {"np_sqrt", "np_cbrt"}, v \in AllVecs }
+          \cup { Case("np_power", v, None, <<e>>) : v \in AllVecs, e \in {I(2), I(3), R(1, 2), I(-1)} }
 
 \* -------- unary vector-valued
 CUnaryVec == { Case(op, v, None, None) : op \in {"unit", "neg"}, v \in AllVecs }
@@ -77,6 +80,14 @@ SmallPairs == (Small2 \X Small2) \cup (Small3 \X Small3)
 CPred == { Case(op, p[1], p[2], <<k>>) : op \in {"is_parallel", "is_antiparallel", "is_perpendicular"}, p \in SmallPairs, k \in Tols }
          \cup { Case(op, v, None, <<k>>) : op \in {"is_timelike", "is_spacelike", "is_lightlike"}, v \in Vec4 \cup Small4, k \in CausalTols }
 
+\* proper-time storage given directly: any rational tau next to a spatial part, in particular negative tau
+\* beyond the spatial magnitude (no real t has that proper time; t is then 0, never NaN)
+RawTaus == { I(n) : n \in {-84, -20, -14, -13, -5, -4, -3, -2, -1, 0, 1, 3, 5, 13} } \cup { R(-5, 2), R(1, 2) }
+RawVecs == { <<v[1], v[2], v[3], k>> : v \in Vec3 \cup {V3(1, 2, 2), V3(0, 0, 3), V3(2, -1, 0), V3(1, 0, 2)}, k \in RawTaus }
+CRawTau == { Case(op, a, None, None) : op \in {"rawtau_tau", "rawtau_tau2", "rawtau_t2", "rawtau_t"}, a \in RawVecs }
+           \cup { Case(op, a, None, <<k>>) : op \in {"rawtau_is_timelike", "rawtau_is_spacelike", "rawtau_is_lightlike"},
+                                              a \in RawVecs, k \in CausalTols }
+
 CONSTANT Group      \* which group this run enumerates ("all" for every group)
 
 On(g) == Group = "all" \/ Group = g
@@ -95,6 +106,7 @@ Init == \/ On("unary") /\ c \in CUnary
         \/ On("boost") /\ c \in CBoost
         \/ On("cmp") /\ c \in CCmp
         \/ On("pred") /\ c \in CPred
+        \/ On("rawtau") /\ c \in CRawTau
 Next == UNCHANGED c
 Spec == Init /\ [][Next]_c
 
